@@ -32,6 +32,7 @@ ASIS_LEADS = [  # (cfg, invariant the code as-is is expected to break, what it m
     ("MC_Session_asis_db.cfg", "RegistryIsDatabase", "remove(id) racing add(id), or CleanDatabase after an invalid record was re-added: a registered torrent without a record"),
     ("MC_Session_asis_crash.cfg", "NoCrash", "AddTracker / Close on a torrent whose record is gone dereferences a nil bucket"),
     ("MC_Session_lostupdate.cfg", "NoLostTracker", "an AddTracker that reads the stored tracker list in one transaction and writes the extended list in another: callers queued behind a holder of the database's writer lock all extend the same list, the record keeps one of the new trackers"),
+    ("MC_Session_asis_latewrite.cfg", "RecordIsOwn", "a remove that gives the id back when the record is deleted, before the removed (running) torrent is closed: an add of the same id in between gets the bitfield that the removed torrent writes by id while it stops"),
     ("MC_Session_sparse.cfg", "RecordIsOwn", "a resume write that stores only non-empty values: a record written over the leftover bucket of a record that failed to load inherits the previous owner's bitfield"),
 ]
 
@@ -104,9 +105,9 @@ def design_level(ctx):
         if ok or ("Invariant %s is violated" % inv) not in out:
             raise vlib.MachineryError("as-is model %s no longer violates %s - specification drifted:\n%s" % (cfg, inv, out[-1500:]))
         with _lock:
-            leads[inv] = {"lead": what, "counterexample_states": len(re.findall(r"\nState \d+: ", out))}
+            leads[cfg[len("MC_Session_"):-len(".cfg")] + ":" + inv] = {"lead": what, "counterexample_states": len(re.findall(r"\nState \d+: ", out))}
 
-    jobs = [(positive, "MC_Session.cfg"), (positive, "MC_Session_leftover.cfg")]
+    jobs = [(positive, "MC_Session.cfg"), (positive, "MC_Session_leftover.cfg"), (positive, "MC_Session_run.cfg")]
     if TRACKER_RACE:
         jobs.append((positive, "MC_Session_hold.cfg"))
     if not ctx.quick():
@@ -167,6 +168,7 @@ def session_level(ctx, drv, fast, only):
         (5, "race", ctx.pick(4, 12), 0, 2),           # gated RemoveTorrent(a) || AddTorrent(ID: a)
         (6, "race-add", ctx.pick(10, 40), 0, 3),      # gated AddTorrent(ID: a) || AddTorrent/AddURI(ID: a) (|| a third call)
         (7, "race-tracker", ctx.pick(18, 60), 0, 4),  # k x AddTracker(a) (|| AddTracker(b) / Start / Stop) queued behind a holder of the db writer lock
+        (8, "race-readd", ctx.pick(48, 240), 0, 2),   # RemoveTorrent(a) of a RUNNING torrent || AddTorrent/AddURI(ID: a) repeated until it gets in
     ]
     q = queue.Queue()
     stop = threading.Event()
@@ -232,6 +234,8 @@ def session_level(ctx, drv, fast, only):
             raise vlib.MachineryError("no torrent was added over a leftover record of class %s (vacuous run)" % cls)
     if ctx.obligation_counts.get("C14.race_add.first_add_held_while_others_ran", 0) == 0:
         raise vlib.MachineryError("no gated history of concurrent adds with one id was recorded (vacuous run)")
+    if ctx.obligation_counts.get("C14.race_readd.add_returned_during_remove", 0) == 0:
+        raise vlib.MachineryError("no history in which an add of the id of a running torrent returned while its remove was in progress (vacuous run)")
     if TRACKER_RACE and ctx.obligation_counts.get("C14.race_tracker.queued_behind_writer", 0) == 0:
         raise vlib.MachineryError("no history with two AddTracker calls on one torrent queued behind the holder of the database's writer lock (vacuous run)")
     if ctx.obligation_counts.get("C14.obs", 0) == 0 or ctx.obligation_counts.get("C14.restart", 0) == 0:
@@ -361,6 +365,17 @@ def account(ctx, traces):
                 inner = [e for e in evs[first + 1:ret] if e["op"] == "ret" and e.get("g") != 2]
                 if inner:
                     ctx.oblig("C14.race_add.first_add_held_while_others_ran", 1)
+        if evs and str(evs[0].get("mode", "")).startswith("race-readd"):
+            ctx.oblig("C14.race_readd.histories", 1)
+            # the adder was in time: a call Add(a) returned (refused or not) between call and ret of the remove of the running torrent
+            rc = next((k for k, e in enumerate(evs) if e["op"] == "call" and e["name"] == "Remove"), None)
+            if rc is not None:
+                rr = next((k for k in range(rc, len(evs)) if evs[k]["op"] == "ret" and evs[k].get("g") == evs[rc].get("g")), len(evs))
+                inner = [e for e in evs[rc + 1:rr] if e["op"] == "ret" and e.get("g") != evs[rc].get("g")]
+                if inner:
+                    ctx.oblig("C14.race_readd.add_returned_during_remove", 1)
+                if any(e.get("res") == "ok" for e in inner):
+                    ctx.oblig("C14.race_readd.add_got_in_during_remove", 1)
         if evs and str(evs[0].get("mode", "")).startswith("race-tracker"):
             ctx.oblig("C14.race_tracker.histories", 1)
             # the gate worked: two or more AddTracker calls on one torrent were open, and none of them had returned "ok",
